@@ -187,6 +187,8 @@ fn fixture() -> Memfs {
         fs.symlink("/:", "/nope")?; // dangling link
         fs.symlink("/a/b/up", "/a")?; // link to an ancestor (cycle when followed)
         fs.symlink("/a/b/l", "../a")?; // relative link to a file
+        fs.symlink("/a/.a/x", "/a/.a/y")?; // two links pointing at each other: a cycle that is never a directory,
+        fs.symlink("/a/.a/y", "/a/.a/x")?; // whoever chases link chains must give up at some point
         Ok(fs)
     });
     match r {
